@@ -1,3 +1,4 @@
+import ChipFiring.Theory.MinStrat
 import ChipFiring.Theory.RankTheory
 import ChipFiring.Theory.GoodOf
 /-
@@ -256,5 +257,34 @@ theorem computeGonality_exact_connected (G : Graph n) (hG : G.WF) (hc : G.Connec
     (∃ k : Nat, g = k ∧ 1 ≤ k ∧ (k : Int) ≤ maxGon ∧ IsGonality G k ∧ l ≠ [] ∧
       ∀ P ∈ l, Eff P ∧ deg P = k ∧ RankGeOne G P) :=
   computeGonality_exact G (good_of_connected G hG hc hn) fuel maxGon fs g l h
+
+/-- per-sink search (`enhanced_dhar_gonality_test`, `find_minimal_winning_strategies`): the value
+    is the least number of chips off q of a non-empty placement that survives a chip removed at q
+    (cut-off + 1 when there is none within the cut-off), and the strategies are exactly the
+    surviving placements with that many chips, each up to the order of its chips -/
+theorem per_sink_search_exact (G : Graph n) (hg : Good G) (fuel : Nat) (q : Fin n) (vt : List (Fin n)) (hnd : vt.Nodup)
+    (maxGon k : Nat) (ms : List (List (Fin n))) (h : enhancedDhar G fuel q vt maxGon = some (k, ms)) :
+    (ms = [] ∧ k = maxGon + 1 ∧
+      ∀ s, (∀ x ∈ s, x ∈ vt) → s ≠ [] → s.length ≤ maxGon → ¬ Wins G q (fun _ => 0) s) ∨
+    (1 ≤ k ∧ k ≤ maxGon ∧ ms ≠ [] ∧
+      (∀ t ∈ ms, t.length = k ∧ (∀ x ∈ t, x ∈ vt) ∧ Wins G q (fun _ => 0) t) ∧
+      (∀ s, (∀ x ∈ s, x ∈ vt) → s ≠ [] → s.length < k → ¬ Wins G q (fun _ => 0) s) ∧
+      (∀ s, (∀ x ∈ s, x ∈ vt) → s.length = k → Wins G q (fun _ => 0) s → ∃ t ∈ ms, ∀ v, t.count v = s.count v)) :=
+  enhancedDhar_exact G q fuel hg vt hnd maxGon k ms h
+
+/-- the minimal-strategy list itself (any base divisor, any cut-off): everything listed is a
+    non-empty winner none of whose one-chip-smaller non-empty placements wins, and every such
+    placement of admissible size over `vt` is listed (up to the order of its chips) -/
+theorem minimal_strategies_exact (G : Graph n) (hg : Good G) (fuel : Nat) (q : Fin n) (base : Fin n → Int)
+    (vt : List (Fin n)) (hnd : vt.Nodup) (maxChips : Nat) (found : List (List (Fin n)))
+    (h : minimalStrategies G fuel q base vt maxChips = some found) :
+    (∀ t ∈ found, t ≠ [] ∧ t.length ≤ maxChips ∧ (∀ x ∈ t, x ∈ vt) ∧ MinWin G q base t) ∧
+    (∀ s, (∀ x ∈ s, x ∈ vt) → s ≠ [] → s.length ≤ maxChips → MinWin G q base s →
+      ∃ t ∈ found, ∀ v, t.count v = s.count v) := by
+  have hinv := minimalStrategies_spec G q base fuel hg vt maxChips found h
+  refine ⟨fun t ht => ?_, fun s hs hne hM hmw => minwin_found G q base vt hnd maxChips found hinv s hs hne hM hmw⟩
+  obtain ⟨hP, hne, hmw⟩ := hinv.1 t ht
+  obtain ⟨-, b, c⟩ := processed_sound vt maxChips t hP
+  exact ⟨hne, b, c, hmw⟩
 
 end CF.C04
